@@ -13,11 +13,12 @@ Ltac own_tac HP H :=
   match goal with E : get ?th (thinst ?s) = Some ?i, E0 : get ?i (insts ?s) = Some ?x |- _ =>
     intros j9 x9 xo9 Hx9 Hxo9; unfold set_pc in Hx9; autorewrite with sup in Hx9; cbn [fst snd] in Hx9;
     destruct (N.eqb_spec i j9) as [<-|Hne];
-    [ rewrite E0 in Hx9; cbn in Hx9; injection Hx9 as <-; pose proof (HP _ _ _ E0 Hxo9) as HPx; p2_pre; destruct HPx; constructor
+    [ rewrite E0 in Hx9; cbn in Hx9; injection Hx9 as <-; pose proof (HP _ _ _ E0 Hxo9) as HPx; p2_pre; destruct HPx;
+      try match goal with E : pc _ = _ |- _ => rewrite E in * end; cbn in *; constructor
     | eapply P2_frame; [apply (HP j9 x9 xo9 Hx9 Hxo9)|apply ikeep_refl|apply okeep_refl|apply vrel_vkeep; vrel_tac|apply wkeep_refl] ]
   end;
-  try match goal with E : pc _ = _ |- _ => rewrite E in * end;
-  try (p2_clause; fail).
+  try match goal with E : pc _ = _ |- _ => rewrite E end;
+  try (p2_goal; fail).
 
 Lemma P2all_own_gen s o th e s' : P2all s o -> oirr e = true -> own_special e = false -> step_own s th e = Some s' -> P2all s' o.
 Proof.
